@@ -6,6 +6,7 @@ CONSTANTS
   MaxRecs = 6
   AllowMixed = TRUE
   NCorrupt = 8
+  Subst0 = {48}
   Lens = {0, 1, 2, 4, 7, 16, 32}
 INIT Init
 NEXT Next
